@@ -92,6 +92,43 @@ def history_cases(rng, n):
     return out
 
 
+def sql_cases(rng, n):
+    """SQL-engine programs (joins with shared key columns and duplicate rows, chains, every unary operation) executed on
+    SQLite: the declared columns / row bounds / join-identity flag against the rows the database returns."""
+    import multiprog as mp
+    import sqlprog as sp
+    out = []
+    for k in range(n):
+        if k % 3 == 0:
+            # joins in which one operand only has (some of) the join's key columns, with duplicate rows
+            a, b = K(1), K(2)
+            lcols = [a, b] if rng.random() < 0.7 else [a]
+            rcols = [a] if rng.random() < 0.6 else [a, K(3)]
+            l = ("leaf", 1, sp.SQL, sorted(lcols), [dict(zip(lcols, [rng.choice((1, 1, 2)), rng.choice((5, 6))][:len(lcols)])) for _ in range(rng.choice([2, 3]))],
+                 rng.choice([(0, None), None]))
+            r = ("leaf", 2, sp.SQL, sorted(rcols), [dict(zip(rcols, [rng.choice((1, 1, 2)), rng.choice((7, 8))][:len(rcols)])) for _ in range(rng.choice([2, 3, 4]))],
+                 rng.choice([(0, None), None]))
+            l = l[:5] if l[5] is None else l
+            r = r[:5] if r[5] is None else r
+            p = ("join", None, True, False, l, r) if rng.random() < 0.5 else ("join", None, True, False, r, l)
+            if rng.random() < 0.4:
+                p = ("un", ("slice", rng.choice([0, 1]), None), mp.DEFAULT, ("un", ("sort", sp.total_sort_terms(rng, set(lcols) | set(rcols))), mp.DEFAULT, p))
+        else:
+            p, _cols, _o = sp.gen_sqlprog(rng, rng.choice([1, 2, 3, 4]))
+        w, rel, res = mp.run_build(p)
+        if rel is None:
+            continue
+        try:
+            rows, _rev = sp.execute_both(w, rel)
+        except Exception:  # noqa: BLE001 — C08's concern
+            continue
+        coq = (f"DCase {cset(sorted(rel.columns))} {cz(rel.min_rows)} {coptz(rel.max_rows)} {cbool(bool(rel.is_join_identity))} "
+               f"{enc.crows(rows)}")
+        out.append({"json": {"program": jsonable(p), "declared": [sorted(map(str, rel.columns)), rel.min_rows, rel.max_rows],
+                             "rows": jsonable(rows)}, "coq": coq, "nontrivial": True, "key": mp.cprog(p)})
+    return out
+
+
 def run(ctx):
     rng = random.Random(ctx.seed)
     s1 = core.s1(ctx, ["Slice"], "Properties.C06", THEOREMS, extra_targets=["Model/CheckMeta.vo"])
@@ -99,6 +136,9 @@ def run(ctx):
     hcases = history_cases(rng, 200 if ctx.tier == "quick" else 4000)
     hsumm = core.judge(ctx, hcases, HDR, "check_decl", prefix="cases_C06h",
                        bits={4: "rows of a processed-extended-processed tree contradict its declared columns / row bounds / flags"})
+    qcases = sql_cases(rng, 240 if ctx.tier == "quick" else 5000)
+    qsumm = core.judge(ctx, qcases, HDR, "check_decl", prefix="cases_C06q",
+                       bits={4: "rows returned by the database contradict the declared columns / row bounds / flags of the SQL relation"})
     bits = {1: "built tree differs from the model",
             2: "columns / min_rows / max_rows / is_join_identity / is_trivial differ from the model's",
             4: "executed rows contradict the metadata the library declares (keys, count bounds or a flag)",
@@ -108,11 +148,11 @@ def run(ctx):
     for c in cases:
         remap.append(c)
     summ = core.judge(ctx, cases, HDR.replace("check_meta", "check_meta"), "check_meta_j", bits=bits)
-    core.conclude_s1(ctx, s1, summ["spec_failures"] + hsumm["spec_failures"] > 0 or bool(ctx.violations))
-    distinct = {c["key"] for c in cases + hcases if c["nontrivial"]}
+    core.conclude_s1(ctx, s1, summ["spec_failures"] + hsumm["spec_failures"] + qsumm["spec_failures"] > 0 or bool(ctx.violations))
+    distinct = {c["key"] for c in cases + hcases + qcases if c["nontrivial"]}
     ctx.coverage.update({
-        "evaluations": len(cases) + len(hcases), "distinct_nontrivial": len(distinct),
-        "multi_engine_histories": hsumm,
+        "evaluations": len(cases) + len(hcases) + len(qcases), "distinct_nontrivial": len(distinct),
+        "multi_engine_histories": hsumm, "sql_engine_programs": qsumm,
         "rule": "iteration-engine programs over leaves whose declared bounds are exact, loose, zero or unbounded but "
                 "consistent with the real row count, plus doomed and join-identity leaves; for every built relation the "
                 "declared columns/min_rows/max_rows/flags are compared with the model's and with the executed rows; "
